@@ -38,6 +38,10 @@ claim("C04", "who-may-write rules for the client table and counter, pairing on a
       "Static rules over engine/base-server.go, engine/server.go, utils/base64id.go: the client table and counter are written only by Handshake (one Store + one Add(1) paired on every exit, after NewSocket, with NewSocket's socket); the removal decrements only when LoadAndDelete removed the entry and is registered with Once on the same socket; after attaching that listener Handshake re-checks for an already-closed session (registration window); unknown ids are answered UNKNOWN_SID / never reach OnRequest or MaybeUpgrade; ids are URL-safe base64 of a buffer embedding all 64 bits of an atomic sequence (injective ⇒ never repeat in a process) and a failed generation creates no session. Quiescent equality of table, counter and live set under all histories is not decided.",
       TB, "DESIGN.md §3 C04")
 
+claim("C01", "who-may-mutate the write buffer, must-held-lock dataflow at take/send/encode sites, value identity via reaching definitions, loop-exit rule (every exit of the per-packet loop is an error exit), must-precede queries on go/cfg",
+      "Static skeleton of ordered exactly-once delivery: one FIFO with one drainer (only sendPacket pushes, only flush takes, under flushMu, and sends exactly the taken slice to a writable current transport); one batch in flight per transport (writable cleared before the send goroutine, restored only in the completion epilogue after drain / on a new poll); encode+write under the transport mutex; the per-packet loops of websocket/webtransport have no error-free exit other than exhaustion; upgrade hand-off clearTransport ≺ setTransport ≺ flush; AllAndClear is one critical section; frame kind Text iff *StringBuffer. Byte identity, eventual delivery, order across goroutines and loss-freedom across the upgrade window are not decided.",
+      TB, "DESIGN.md §3 C01")
+
 UNDER_CONSTRUCTION = "static rule set designed in DESIGN.md §3 but its checker is not built yet in this revision; not claimed until it is"
 
 def main():
